@@ -1,6 +1,7 @@
 package main
 
 import (
+	"bytes"
 	"fmt"
 	"sort"
 	"strings"
@@ -67,18 +68,33 @@ type psOut struct {
 	Receivers []string
 }
 
-// received decodes the pushes a connection got: list of (channel, payload).
-func received(c *h.Conn) ([][2]string, string) {
-	vals, err := model.DecodeAll(c.Output())
-	if err != nil {
-		return nil, fmt.Sprintf("connection %s received bytes that are not well-formed RESP: %q (%v)", c.Name, c.Output(), err)
-	}
+// received decodes the pushes a connection got: list of (channel, payload).  replies = what the
+// connection's own handler wrote to it (ReplyOnConn scenarios), in order: the stream must be an
+// interleaving of exactly those replies, each intact, with whole message pushes.
+func received(c *h.Conn, replies [][]byte) ([][2]string, string) {
+	stream := c.Output()
 	var out [][2]string
-	for _, v := range vals {
+	pos := 0
+	for pos < len(stream) {
+		if len(replies) > 0 && len(replies[0]) > 0 && bytes.HasPrefix(stream[pos:], replies[0]) {
+			pos += len(replies[0])
+			replies = replies[1:]
+			continue
+		}
+		v, n, err := model.Decode(stream[pos:])
+		if err != nil {
+			return nil, fmt.Sprintf("connection %s received bytes that are not well-formed RESP at offset %d: %q (%v)", c.Name, pos, stream, err)
+		}
 		if v.K != model.Array || len(v.Arr) != 3 || !v.Arr[0].IsStr() || string(v.Arr[0].S) != "message" {
-			return nil, fmt.Sprintf("connection %s received an unexpected push %s", c.Name, v)
+			return nil, fmt.Sprintf("connection %s received something that is neither a message push nor the next reply of its own commands, at offset %d of %q: %s", c.Name, pos, stream, v)
 		}
 		out = append(out, [2]string{string(v.Arr[1].S), string(v.Arr[2].S)})
+		pos += n
+	}
+	for _, r := range replies {
+		if len(r) > 0 {
+			return nil, fmt.Sprintf("connection %s never received the reply %q of one of its own commands (stream %q)", c.Name, r, stream)
+		}
 	}
 	return out, ""
 }
@@ -104,7 +120,7 @@ func checkPubSub(sc *Scenario, rs *runState, out *explorer.Outcome) []cviol {
 	// what every connection received
 	got := map[string][][2]string{}
 	for name, c := range rs.conns {
-		r, bad := received(c)
+		r, bad := received(c, rs.written[name])
 		if bad != "" {
 			add("malformed-push", "", fmt.Sprintf("scenario %s: %s", sc.ID, bad))
 			return vs
